@@ -87,7 +87,7 @@ def link_native(harness_bc, runtime_o, out, use_runtime):
         raise HarnessError("verif_native.cpp does not compile:\n" + vn.get("log", ""))
     vobj = vbuild.native_object(vn["bc"])
     base = [vbuild.CLANGXX, "-o", out, hobj, vobj] + ([runtime_o] + ARROW_LIBS if use_runtime else []) + ["-pthread", "-Wl,--gc-sections"]
-    stubs_src = os.path.join(os.path.dirname(out), "missing_stubs.cpp")
+    stubs_src = out + "_missing_stubs.cpp"
     for attempt in range(3):
         cmd = list(base)
         if os.path.exists(stubs_src):
@@ -243,7 +243,7 @@ def load_known():
     if os.path.exists(KNOWN):
         for l in open(KNOWN):
             l = l.strip()
-            if l and not l.startswith("#"):
+            if l.startswith("{"):
                 out.append(json.loads(l))
     return out
 
@@ -273,7 +273,8 @@ def source_file_of(path):
 def check_property(pid, tier, harnesses, seed=0):
     t_start = time.time()
     os.makedirs(EVID, exist_ok=True)
-    work = tempfile.mkdtemp(prefix="verif_%s_" % pid, dir=os.path.join(CACHE, "work") if os.path.isdir(os.path.join(CACHE, "work")) else None)
+    os.makedirs(os.path.join(CACHE, "work"), exist_ok=True)
+    work = tempfile.mkdtemp(prefix="verif_%s_" % pid, dir=os.path.join(CACHE, "work"))
     known = load_known()
     status = EXIT_OK
     problems = []
@@ -445,7 +446,8 @@ def check_property(pid, tier, harnesses, seed=0):
 def replay(pid, harnesses, path):
     r = json.load(open(path))
     h = next(x for x in harnesses if x["name"] == r["harness"])
-    work = tempfile.mkdtemp(prefix="verif_replay_")
+    os.makedirs(os.path.join(CACHE, "work"), exist_ok=True)
+    work = tempfile.mkdtemp(prefix="verif_replay_", dir=os.path.join(CACHE, "work"))
     try:
         b = build_harness(h, r.get("tier", "quick"), work)
         rc, lines, err = run_native(b, r["model"], work, "replay")
